@@ -23,6 +23,9 @@ let string_of_z z =
 
 let bytes_of_hex h = List.init (String.length h / 2) (fun i -> z_small (int_of_string ("0x" ^ String.sub h (2 * i) 2)))
 let hex_of_bytes bs = String.concat "" (List.map (fun b -> Printf.sprintf "%02x" (int_of_z b)) bs)
+(* ids far past any table, as the harness asks them: u32::MAX, 2^40, usize::MAX/8, 2^61, usize::MAX-1, usize::MAX *)
+let far_ids = ["4294967295"; "1099511627776"; "2305843009213693951"; "2305843009213693952"; "18446744073709551614"; "18446744073709551615"]
+let hex_of_string str = String.concat "" (List.init (String.length str) (fun i -> Printf.sprintf "%02x" (Char.code str.[i])))
 let zlist_of_string s = if s = "" then [] else List.map z_of_string (String.split_on_char ',' s)
 let string_of_zlist l = String.concat "," (List.map string_of_z l)
 
@@ -248,8 +251,9 @@ let () =
            List.for_all2 (fun (ql, qc) got -> (match spec_lookup l (z_small ql) (z_small qc) with None -> got = "none" | Some (_, t) -> got = string_of_tok t))
              [(0, 0); (0, 3); (0, 7); (1, 2); (2, 9); (0, 12)] (split_list after)
          else true) in
-       let corr = (m_c = impl_c) and prop = (if not ordered || not lookups_ok then Some false else if sp = impl_c then Some true else if known then None else Some false) in
-       count corr prop; verdict id corr prop (Printf.sprintf "%s%s%smodel=%s" (if not lookups_ok then "lookup-differs\t" else "") (if not ordered then "not-ordered\t" else "") (if ordered && known && sp <> impl_c then "known=c10_has_empty_stretch\t" else "") m)
+       let corr = (m_c = impl_c) and prop = (if not ordered || not lookups_ok then Some false else if sp = impl_c then Some true else if known && m_c = impl_c then None else Some false) in
+       (* the known finding is the recorded behaviour on inputs with an empty stretch: any OTHER wrong answer on such an input is a new failure *)
+       count corr prop; verdict id corr prop (Printf.sprintf "%s%s%smodel=%s" (if not lookups_ok then "lookup-differs\t" else "") (if not ordered then "not-ordered\t" else "") (if ordered && known && sp <> impl_c && m_c = impl_c then "known=c10_has_empty_stretch\t" else "") m)
      | [id; "rewrite"; m; names; contents; prefixes; impl] ->
        let sm = map_of_string m in
        let o = { ro_names = (names = "1"); ro_contents = (contents = "1"); ro_prefixes = List.map bytes_of_hex (split_list prefixes) } in
@@ -276,13 +280,18 @@ let () =
              let rec nodup = function [] -> true | x :: r -> not (List.mem x r) && nodup r in
              let no_strip = (o.ro_prefixes = []) in
              let interned = used srcs' (fun t -> t.t_src) && used names' (fun t -> t.t_name) && nodup (Array.to_list names') && (not no_strip || nodup (Array.to_list srcs')) in
-             (* contents: kept -> the content of a rewritten source is a content the input attaches to a source of that (stripped) name; dropped -> none *)
-             let contents_ok = (let ok = ref true in
-               Array.iteri (fun i s' -> let c = (if i < Array.length contents' then contents'.(i) else "-") in
-                 if contents = "0" then (if c <> "-" then ok := false)
-                 else (let cands = List.filter_map (fun t -> if strip (tok_source sm t) = s' then Some (opt_hex' (get_source_contents sm t.t_src)) else None) sm.sm_tokens in
-                       let firsts = (match List.find_opt (fun x -> x <> "-") cands with Some x -> x | None -> "-") in
-                       if no_strip then (if c <> firsts then ok := false) else (if c <> "-" && not (List.mem c cands) then ok := false))) srcs'; !ok) in
+             (* contents: dropped -> none.  Kept -> read through every token: the content its rewritten source carries is the first content (in
+                token order) that the input attaches to the token's source NAME before stripping -- sources whose names only become equal
+                by stripping stay apart, each with its own content *)
+             let contents_ok = (if contents = "0" then Array.for_all (fun c -> c = "-") contents' else
+               (try List.for_all2 (fun t t' ->
+                   (match tok_source sm t with
+                    | None -> true
+                    | Some nm ->
+                      let cands = List.filter_map (fun u -> if tok_source sm u = Some nm then Some (opt_hex' (get_source_contents sm u.t_src)) else None) sm.sm_tokens in
+                      let first = (match List.find_opt (fun x -> x <> "-") cands with Some x -> x | None -> "-") in
+                      let k = int_of_z t'.t_src in
+                      (if k < Array.length contents' then contents'.(k) else "-") = first)) sm.sm_tokens ts' with Invalid_argument _ -> false)) in
              Some (want = got && interned && contents_ok && file' = opt_hex' sm.sm_file && ordered)
            | _ -> Some false)) in
        let corr = (mo = impl) in
@@ -318,7 +327,8 @@ let () =
      | [id; "ram"; hex; corrupted; abstr; impl] ->
        let bs = bytes_of_hex hex in
        let mo = (match parse bs with
-         | Ok b -> let ms = List.init 6 (fun i -> match get_module b (z_small i) with Ok None -> "none" | Ok (Some d) -> "=" ^ hex_of_bytes d | Err _ -> "err" | Panic _ -> "panic") in
+         | Ok b -> let ids = List.init 6 z_small @ List.map z_of_string far_ids in
+                   let ms = List.map (fun i -> match get_module b i with Ok None -> "none" | Ok (Some d) -> "=" ^ hex_of_bytes d | Err _ -> "err" | Panic _ -> "panic") ids in
                    (* model of the iterator: ids in order, empty slots skipped, first 8 items *)
                    let cnt = int_of_z b.b_count in
                    let rec iter k acc n = if n = 0 || k >= cnt then List.rev acc else
@@ -347,6 +357,7 @@ let () =
               let soff = 12 + 8 * c in
               let st_ok = (match slice soff ss with Some x -> startup = x | None -> startup = "err") in
               let mods_ok = List.for_all (fun x -> x) (List.mapi (fun i got ->
+                  if i >= 6 then got = "err" else                   (* the far ids (2^32-1 .. 2^64-1) are past every table *)
                   if i >= c then got = "err" else
                   (match u32 (12 + 8 * i), u32 (12 + 8 * i + 4) with
                    | Some off, Some l -> if off = 0 && l = 0 then got = "none" else if l = 0 then got = "err"
@@ -360,7 +371,7 @@ let () =
          else (match String.split_on_char ':' abstr with
            | [count; startup; mods] ->
              let mods = split_list mods in let cnt = int_of_string count in
-             let ms = List.init 6 (fun i -> if i < cnt then List.nth mods i else "err") in
+             let ms = List.init 6 (fun i -> if i < cnt then List.nth mods i else "err") @ List.map (fun _ -> "err") far_ids in
              let it = List.filteri (fun i _ -> i < 8) (List.concat (List.mapi (fun i m -> if m = "none" then [] else [string_of_int i ^ m]) mods)) in
              let want = Printf.sprintf "ok %s %s %s true %s" count startup (String.concat "," ms) (String.concat "," it) in
              Some (want = impl)
@@ -471,7 +482,7 @@ let () =
        let r = MkRaw (Some (z_small 3),
          (if file = "-" then None else if file = "n" then Some (JNum (bytes_of_hex "3132", Some (z_small 12))) else Some (JStr (bytes_of_hex (unq file)))),
          lst sources ostr, opt_of root, lst contents ostr, None,
-         lst names (fun x -> if x.[0] = '#' then (let t = String.sub x 1 (String.length x - 1) in JNum (List.map (fun c -> z_small (Char.code c)) (List.init (String.length t) (String.get t)), Some (z_of_string t))) else JStr (bytes_of_hex (unq x))),
+         lst names (fun x -> if x.[0] = '#' then (let t = String.sub x 1 (String.length x - 1) in JNum (List.map (fun c -> z_small (Char.code c)) (List.init (String.length t) (String.get t)), (if String.length t <= 9 && String.for_all (fun c -> c >= '0' && c <= '9') t then Some (z_of_string t) else None))) else JStr (bytes_of_hex (unq x))),
          opt_of rmappings, opt_of mappings, lst ignore z_of_string, None, None, None,
          (if d1 = "-" then None else Some (z_of_string d1)), (if d2 = "-" then None else Some (z_of_string d2))) in
        let dbg = function None -> "-" | Some k -> Printf.sprintf "00000000-0000-0000-0000-0000000000%02x" (int_of_z k) in
@@ -514,7 +525,14 @@ let () =
                   let strip_flag ts = List.map (fun t -> string_of_tok { t with t_range = false }) ts in
                   (try List.sort compare (strip_flag (toks_of_string toks)) = List.sort compare (strip_flag l) with _ -> false)
                 | _ -> true)) else true) in
-       let prop = if impl = "panic" || not idem_ok || not ordered || not join_ok || not tokens_ok then Some false else if rmi_ok then Some (is_ok = spec_ok) else None in
+       (* C02: a name is the string it is written as; a name written as a JSON number is that number's decimal text *)
+       let names_ok = (if is_ok && impl <> "ok other-kind" then
+           (match String.split_on_char '|' (String.sub impl 3 (String.length impl - 3)), lst names (fun x -> x) with
+            | _ :: _ :: got :: _, Some ws -> String.concat "," (List.map (fun w -> if w.[0] = '#' then "=" ^ hex_of_string (String.sub w 1 (String.length w - 1)) else w) ws) = got
+            | _ :: _ :: got :: _, None -> got = ""
+            | _ -> false) else true) in
+       let entry_differs = String.length impl >= 19 && String.sub impl 0 19 = "entry-points-differ" in
+       let prop = if impl = "panic" || entry_differs || not idem_ok || not ordered || not join_ok || not tokens_ok || not names_ok then Some false else if rmi_ok then Some (is_ok = spec_ok) else None in
        let _ = fault in
        (* sort_unstable_by_key may permute tokens that share a generated position when the segments were not already in order:
           the relative order inside such a group is canonicalised on both sides (sorted input is compared exactly) *)
@@ -531,7 +549,7 @@ let () =
            | Some b -> (match spec_decode_mappings nsrc nn b with Ok l -> toks_sorted l | _ -> true) | None -> true) in
        let same_obs = if doc_sorted then m = impl else canon_groups m = canon_groups impl in
        let corr = same_obs && (doc_sorted = false || !m_idem = (if String.length impl_idem > 1 then String.sub impl_idem 0 1 else impl_idem)) in
-       count corr prop; verdict id corr prop (Printf.sprintf "model=%s%s" (if corr then "same" else m ^ " idem=" ^ !m_idem) ((if not idem_ok then "\tnot-idempotent" else "") ^ (if not ordered then "\tnot-ordered" else "") ^ (if not join_ok then "\tsource-root-join-differs" else "") ^ (if not tokens_ok then "\ttokens-differ-from-independent-reading" else "")))
+       count corr prop; verdict id corr prop (Printf.sprintf "model=%s%s" (if corr then "same" else m ^ " idem=" ^ !m_idem) ((if not idem_ok then "\tnot-idempotent" else "") ^ (if not ordered then "\tnot-ordered" else "") ^ (if not join_ok then "\tsource-root-join-differs" else "") ^ (if not names_ok then "\tnames-differ" else "") ^ (if entry_differs then "\tentry-points-differ" else "") ^ (if not tokens_ok then "\ttokens-differ-from-independent-reading" else "")))
      | [id; "hermes"; mp; fb; offsets; impl] ->
        let m = map_of_string mp in
        let parse_fb s = (match s with
@@ -599,6 +617,23 @@ let () =
      | [id; "crash"; kind; input; impl] ->
        (* C05: no prediction, only the crash oracle *)
        let prop = Some (not (String.length impl >= 5 && String.sub impl 0 5 = "panic")) in count true prop; verdict id true prop ("class=" ^ impl)
+     | [id; "slicehist"; text; reqs; impls] ->
+       (* C15 over histories: several slice requests on one view; each answer is judged on its own, as on a fresh view *)
+       let cps = scalars_of_hex text in
+       let rec split cur acc = function [] -> List.rev (List.rev cur :: acc) | c :: r -> if Z.eqb c (z_small 10) then split [] (List.rev cur :: acc) r else split (c :: cur) acc r in
+       let lines = Array.of_list (split [] [] cps) in
+       let show = function Some s -> "=" ^ hex_of_scalars s | None -> "-" in
+       let corr = ref true and fail = ref false and known_hit = ref false and notes = ref [] in
+       (try List.iter2 (fun rq impl ->
+           (match String.split_on_char ':' rq with
+            | [l; c; n] ->
+              let li = int_of_string l and c = z_of_string c and n = z_of_string n in
+              let (mo, sp, known) = (if li < Array.length lines then (show (get_line_slice lines.(li) c n), show (covering lines.(li) c n), start_inside_pair lines.(li) c n) else ("-", "-", false)) in
+              if mo <> impl then corr := false;
+              if sp <> impl then (if known && mo = impl then known_hit := true else (fail := true; notes := (rq ^ ": got " ^ impl ^ " want " ^ sp) :: !notes))
+            | _ -> corr := false)) (split_list reqs) (split_list impls) with Invalid_argument _ -> corr := false);
+       let prop = if !fail then Some false else if !known_hit then None else Some true in
+       count !corr prop; verdict id !corr prop (String.concat "; " (List.rev !notes) ^ (if !known_hit && not !fail then "\tknown=c15_start_inside_pair" else ""))
      | [id; "slice"; line; col; span; impl] ->
        let l = scalars_of_hex line and c = z_of_string col and n = z_of_string span in
        let show = function Some s -> "=" ^ hex_of_scalars s | None -> "-" in
@@ -606,8 +641,8 @@ let () =
        let known = start_inside_pair l c n in
        let corr = (mo = impl) in
        (* property (C15): the characters covering [col, col+span); the known-finding class is classified, not excused *)
-       let prop = if sp = impl then Some true else if known then None else Some false in
-       count corr prop; verdict id corr prop (Printf.sprintf "model=%s\tspec=%s%s" mo sp (if known && sp <> impl then "\tknown=c15_start_inside_pair" else ""))
+       let prop = if sp = impl then Some true else if known && mo = impl then None else Some false in
+       count corr prop; verdict id corr prop (Printf.sprintf "model=%s\tspec=%s%s" mo sp (if known && sp <> impl && mo = impl then "\tknown=c15_start_inside_pair" else ""))
      | [id; "dataurl"; preamble; via_url; direct; embedded; via_view] ->
        (* C18: what comes back through the data URL is what the serialised bytes decode to, also when the URL sits in a
           sourceMappingURL comment and is discovered from there *)
